@@ -27,15 +27,25 @@ type snap struct {
 	grad    tensor.Tensor
 	gradVal string
 	edges   int
+	scalars string // every scalar bookkeeping field of the tensor and its context (reflection)
 }
 
 func snapOf(t tensor.Tensor) snap {
 	flat, nesting, dims, rect, _ := tensor.VerifInspect(t)
 	tr, dirty, g, targets, _ := tensor.VerifGradState(t)
-	s := snap{data: fmt.Sprintf("%v|%v|%v|%v|%v", flat, nesting, dims, rect, t.Shape()), tracked: tr, dirty: dirty, grad: g, edges: len(targets)}
+	s := snap{data: fmt.Sprintf("%v|%v|%v|%v|%v", flat, nesting, dims, rect, t.Shape()), tracked: tr, dirty: dirty, grad: g, edges: len(targets), scalars: tensor.VerifScalarFields(t)}
 	if g != nil {
 		gf, _, gd, _, _ := tensor.VerifInspect(g)
 		s.gradVal = fmt.Sprintf("%v|%v", gf, gd)
+	}
+	return s
+}
+
+// stripFlagFields removes the two flags that are compared separately
+// (tracked, bpdirty: the latter may legitimately change in a back-propagation).
+func stripFlagFields(s string) string {
+	for _, f := range []string{"tracked=true", "tracked=false", "bpdirty=true", "bpdirty=false"} {
+		s = strings.ReplaceAll(s, f, "")
 	}
 	return s
 }
@@ -51,6 +61,9 @@ func diffSnap(a, b snap, allowGrad bool) string {
 	}
 	if a.edges != b.edges {
 		return fmt.Sprintf("back edges changed %d -> %d", a.edges, b.edges)
+	}
+	if sa, sb := stripFlagFields(a.scalars), stripFlagFields(b.scalars); sa != sb {
+		return fmt.Sprintf("private bookkeeping fields changed: %s -> %s", sa, sb)
 	}
 	if !allowGrad {
 		if a.dirty != b.dirty {
@@ -496,13 +509,22 @@ func checkC10(c *core.Ctx) {
 			c.Case("alias/"+sc.name+"/baseline", false, func() core.Verdict { return core.Fail("scenario %s failed: %s", sc.name, base) })
 			continue
 		}
-		// the baseline itself must be deterministic
-		c.Case("alias/"+sc.name+"/baseline", false, func() core.Verdict {
-			if again := sc.run(func(int, []mutTarget) {}); again != base {
-				return core.Fail("HARNESS: scenario %s is not deterministic", sc.name)
+		// the baseline itself must be deterministic; scenarios with random
+		// constructors fall back to comparing everything but the element
+		// values if re-seeding the global source does not reproduce them
+		valueFree := false
+		if again := sc.run(func(int, []mutTarget) {}); again != base {
+			if stripValues(again) == stripValues(base) && (strings.HasPrefix(sc.name, "ctor/Rand") || strings.HasPrefix(sc.name, "init/")) {
+				valueFree = true
+				base = stripValues(base)
+				c.Count("alias_scenarios_compared_without_random_values", 1)
+			} else {
+				c.Case("alias/"+sc.name+"/baseline", false, func() core.Verdict {
+					return core.Fail("scenario %s gives different observations when run twice on fresh objects (hidden state shared between calls):\n%s\n%s", sc.name, base, again)
+				})
+				continue
 			}
-			return core.Pass()
-		})
+		}
 		for ti, tg := range targets {
 			for i := 0; i < tg.n; i++ {
 				for alt := 0; alt < tg.nalt; alt++ {
@@ -520,6 +542,9 @@ func checkC10(c *core.Ctx) {
 							if p != nil {
 								return core.Fail("%s: mutating %s[%d] (alternative %d) at moment %d makes the library panic: %v", sc.name, targets[ti].name, i, alt, phase, p)
 							}
+							if valueFree {
+								got = stripValues(got)
+							}
 							if got != base {
 								return core.Fail("%s: mutating caller-owned slice %s[%d] (alternative %d) at moment %d (1=after the call, 2=after one more op, 3=before BackPropagate) changes later observations:\n mutated:   %s\n untouched: %s", sc.name, targets[ti].name, i, alt, phase, got, base)
 							}
@@ -530,6 +555,22 @@ func checkC10(c *core.Ctx) {
 			}
 		}
 	}
+}
+
+// stripValues removes the element values ("[...]" right after a ':' or ';')
+// from an observation string, keeping shapes, flags and errors.
+func stripValues(s string) string {
+	var b strings.Builder
+	for _, part := range strings.Split(s, ";") {
+		if i := strings.Index(part, ":["); i >= 0 {
+			if j := strings.Index(part[i:], "]|"); j >= 0 {
+				part = part[:i+1] + "<values>" + part[i+j+1:]
+			}
+		}
+		b.WriteString(part)
+		b.WriteString(";")
+	}
+	return b.String()
 }
 
 func c10Components() core.Verdict {
